@@ -270,6 +270,84 @@ def run_witness(binpath, w):
                     "reproduced": bool(res), "why": "; ".join("%s: %s" % (a, b) for (a, b, _c) in res[:8])[:1800],
                     "n_inputs": sum(len(c) for _f, c in groups), "failing_inputs": [c for (_a, _b, c) in res if c][:12],
                     "failures": [[a, b] for (a, b, _c) in res][:200]}
+        elif kind == "lsp-fix-ranges":
+            # for each program: the quick-fix edits the language server offers for the whole document, applied as the
+            # LSP specification defines ranges (0-based line, UTF-16 column), must give the text `check --fix --stdout`
+            # gives (which applies the same fixes by byte offset); every range must lie inside the document
+            from concurrent.futures import ThreadPoolExecutor
+            progs = list(w["input"])
+
+            def one(i):
+                src_ = progs[i]
+                f = os.path.join(tmpdir, "q%d.gdn" % i)
+                open(f, "w", encoding="utf-8").write(src_)
+                uri = "file://" + f
+                n_lines = src_.count("\n") + 1
+                msgs = [{"jsonrpc": "2.0", "method": "textDocument/didOpen", "params": {"textDocument": {"uri": uri, "languageId": "garden", "version": 1, "text": src_}}},
+                        {"jsonrpc": "2.0", "id": 1, "method": "textDocument/codeAction", "params": {"textDocument": {"uri": uri},
+                         "range": {"start": {"line": 0, "character": 0}, "end": {"line": n_lines, "character": 0}}, "context": {"diagnostics": []}}}]
+                sf = os.path.join(tmpdir, "q%d.jsonl" % i)
+                with open(sf, "w", encoding="utf-8") as fh:
+                    for m_ in msgs:
+                        fh.write(json.dumps(m_, ensure_ascii=False) + "\n")
+                try:
+                    p1 = subprocess.run([binpath, "reftest-lsp", sf], capture_output=True, text=True, timeout=60)
+                    p2 = subprocess.run([binpath, "check", "--fix", "--stdout", f], capture_output=True, text=True, timeout=60)
+                except subprocess.TimeoutExpired:
+                    return "timeout on %r" % src_[:60]
+                if p1.returncode == 101 or p2.returncode == 101:
+                    return "panicked on %r" % src_[:60]
+                resp = [v for v in _jsons(p1.stdout) if isinstance(v, dict) and v.get("id") == 1]
+                if not resp or not isinstance(resp[0].get("result"), list):
+                    return None
+                edits = []
+                for action in resp[0]["result"]:
+                    if action.get("kind") != "quickfix" or "edit" not in action:
+                        continue
+                    for es in (action["edit"].get("changes") or {}).values():
+                        for e in es:
+                            edits.append((e["range"], e["newText"]))
+                if not edits:
+                    return None
+                lines = src_.split("\n")
+                starts = [0]
+                for l in lines[:-1]:
+                    starts.append(starts[-1] + len(l) + 1)
+
+                def to_off(pos):
+                    line, ch = pos["line"], pos["character"]
+                    if line >= len(lines):
+                        return None
+                    units = 0
+                    for idx, c in enumerate(lines[line]):
+                        if units == ch:
+                            return starts[line] + idx
+                        units += 2 if ord(c) > 0xFFFF else 1
+                    return starts[line] + len(lines[line]) if units == ch else None
+                spans = []
+                for rng, nt in edits:
+                    a, b = to_off(rng["start"]), to_off(rng["end"])
+                    if a is None or b is None or a > b:
+                        return "a quick-fix range %d:%d-%d:%d is not inside the document %r" % (rng["start"]["line"], rng["start"]["character"], rng["end"]["line"], rng["end"]["character"], src_[:80])
+                    spans.append((a, b, nt))
+                spans = sorted(set(spans), reverse=True)
+                if any(spans[k + 1][1] > spans[k][0] for k in range(len(spans) - 1)):
+                    return None          # overlapping fixes: the command line applies them in rounds, not comparable
+                res = src_
+                for a, b, nt in spans:
+                    res = res[:a] + nt + res[b:]
+                want = p2.stdout
+                if not src_.endswith("\n") and want.endswith("\n"):
+                    want = want[:-1]          # `--stdout` ends its output with a newline
+                if res != want:
+                    return "applying the quick-fix ranges as LSP defines them gives %r, `check --fix` gives %r (program %r)" % (res[:200], p2.stdout[:200], src_[:80])
+                return None
+            with ThreadPoolExecutor(max_workers=8) as ex:
+                res = list(ex.map(one, range(len(progs))))
+            bad_items = [r for r in res if r]
+            return {"cmd": "reftest-lsp codeAction / check --fix <%d programs>" % len(progs), "exit": 0, "stdout": "", "stderr": "",
+                    "reproduced": bool(bad_items), "why": "; ".join(bad_items[:4])[:1800], "n_inputs": len(progs),
+                    "failing_inputs": [progs[i] for i, r in enumerate(res) if r][:6]}
         elif kind == "check-matrix":
             # a list of small programs, each with the verdict `garden check` must give
             # (expect_error: True = at least one error diagnostic, False = none)
@@ -605,7 +683,30 @@ def run_witness(binpath, w):
             # fresh name; the renamed program must print what the original printed, and exactly `count`
             # occurrences must have been rewritten
             bad_items, failing = [], []
-            for idx, it in enumerate(w["input"]):
+            items = list(w["input"])
+            if w.get("prelude_collisions"):
+                # a local defined at the very byte offset at which a prelude definition's name starts (the type
+                # checker's definition map also holds definitions of other files), in a function that uses
+                # prelude names: only the local's own occurrences may be rewritten
+                try:
+                    ptxt = open(os.path.join(REPO, "src", "__prelude.gdn"), encoding="utf-8").read()
+                except OSError:
+                    ptxt = ""
+                offs = set()
+                for m_ in re.finditer(r"\b(?:fun|method|struct|enum|test)\s+(?:<[^>]*>\s*)?(\w+)", ptxt):
+                    offs.add(len(ptxt[:m_.start(1)].encode("utf-8")))
+                for m_ in re.finditer(r"^\s+([A-Z]\w*)\b(?=\s*[,(\n])", ptxt, re.M):
+                    offs.add(len(ptxt[:m_.start(1)].encode("utf-8")))
+                head = "\nfun host(): Int {\n  let "
+                body = ("seen = 1\n  let strict = True\n  let no = False\n  let a = Ok(1)\n  let b = Err(2)\n  let c = not(no)\n  let d = dbg(3)\n"
+                        "  let e = Some(4)\n  let n = None\n  let u = Unit\n  let l = [1].len()\n  if strict && c { seen + seen } else { seen }\n}\nprintln(string_repr(host()))\n")
+                for t_ in sorted(offs)[:w.get("max_collisions", 80)]:
+                    pad = t_ - 2 - len(head) - 0
+                    if pad < 0:
+                        continue
+                    items.append({"what": "local defined at byte offset %d, where a prelude definition starts" % t_, "at": "let seen", "delta": 4, "count": 4,
+                                  "src": "//" + "x" * pad + head + body})
+            for idx, it in enumerate(items):
                 src_ = it["src"]
                 off = src_.encode("utf-8").find(it["at"].encode("utf-8")) + it.get("delta", 0)
                 f = os.path.join(tmpdir, "c%d.gdn" % idx)
@@ -633,8 +734,8 @@ def run_witness(binpath, w):
                 if why:
                     bad_items.append("%s: %s" % (it.get("what", idx), why))
                     failing.append(it)
-            return {"cmd": "reftest-rename <%d programs>" % len(w["input"]), "exit": 0, "stdout": "", "stderr": "",
-                    "reproduced": bool(bad_items), "why": "; ".join(bad_items[:3])[:1600], "n_inputs": len(w["input"]), "failing_inputs": failing[:4]}
+            return {"cmd": "reftest-rename <%d programs>" % len(items), "exit": 0, "stdout": "", "stderr": "",
+                    "reproduced": bool(bad_items) or len(items) < w.get("min_inputs", 0), "why": ("; ".join(bad_items[:3]) if bad_items else "only %d programs" % len(items))[:1600], "n_inputs": len(items), "failing_inputs": failing[:4]}
         elif kind == "session-alive":
             # C09 bounded stand-in: each item is a list of session inputs; the session must answer every one of
             # them (one evaluate / run_command answer per request), must not panic, and must answer the last
